@@ -43,6 +43,17 @@ def apply(edits):
 
 def main():
     sel = sys.argv[1:]
+    # SELFTEST_SHARD=i/n: run every n-th entry starting at i (for several scratch worktrees in parallel)
+    shard = os.environ.get("SELFTEST_SHARD")
+    counter = [0]
+
+    def mine():
+        k = counter[0]
+        counter[0] += 1
+        if not shard:
+            return True
+        i, n = shard.split("/")
+        return k % int(n) == int(i)
     if SCRATCH and not os.path.isdir(SCRATCH):
         r0 = sh("git -C /repo worktree add --detach %s HEAD" % SCRATCH)
         assert r0.returncode == 0, r0.stdout
@@ -50,6 +61,8 @@ def main():
     results = []
     for name, pid, expect, edits in MUTATIONS:
         if sel and not any(s in name for s in sel):
+            continue
+        if not mine():
             continue
         try:
             apply(edits)
@@ -68,6 +81,8 @@ def main():
     # behaviour-preserving edits: the check must stay silent
     for name, pid, edits in NEUTRAL:
         if sel and not any(s in name for s in sel):
+            continue
+        if not mine():
             continue
         try:
             apply(edits)
@@ -89,6 +104,8 @@ def main():
         sid = os.path.basename(os.path.dirname(m))
         name = "seed:" + sid
         if sel and not any(s in name for s in sel):
+            continue
+        if not mine():
             continue
         meta = json.load(open(m))
         if meta.get("not_caught"):
